@@ -454,6 +454,15 @@ class Compiler(object):
                 if resolved_member['type'] == 'OCTET STRING':
                     self.pre_process_default_value_octet_string(member)
 
+                if resolved_member['type'] == 'BOOLEAN':
+                    self.pre_process_default_value_boolean(member)
+
+    def pre_process_default_value_boolean(self, member):
+        # The parser only knows that the value is a BOOLEAN if the
+        # member type is written as BOOLEAN, not if it is a reference.
+        if member['default'] in ['TRUE', 'FALSE']:
+            member['default'] = (member['default'] == 'TRUE')
+
     def pre_process_default_value_bit_string(self, member, resolved_member):
         default = member['default']
 
